@@ -6,6 +6,9 @@ ROOT = os.path.dirname(os.path.dirname(os.path.abspath(__file__)))
 
 # id -> (level, technique, level text, level note, design ref)
 CHECKS = {
+    "C12": ("exploration", "runtime monitoring: model-based monitor of assembler call sequences — generated legal sequences with the two pinned rejections (repeated key in three call forms; unacceptable kind) injected at random positions, outcome class per call and read-out of Build() checked against a sequential model of the contract; Reset/reuse sequences",
+            "Held on the sequences observed for basicnode, bindnode (struct, typed maps, renamed representation, Any map; type and representation level) and the checked-in generated code, apart from one known finding (generated typed maps accept a repeated key through AssembleKey). Freshly generated code is exercised by C13.",
+            "Trusted: the sequential contract model in internal/props/c12.go and internal/obs. Misuse orders are never generated.", "DESIGN.md §2 C12"),
     "C11": ("exploration", "runtime monitoring: snapshot-and-reread monitor — every tracked node is read out in full right after production and again after each step of a generated history of later library operations (builder reset/reuse, assign-and-extend, transforms, walks, subset matches, further loads and decodes)",
             "Held on the histories observed: no tracked node from any producer changed its read-out, and no accessor disagreed with itself on a second read. Sampling of producers and histories.",
             "Trusted: internal/obs read-out monitor. Callers writing into slices they own are excluded as the property states.", "DESIGN.md §2 C11"),
